@@ -8,6 +8,7 @@ import (
 	"strconv"
 	"strings"
 	"unicode"
+	"unicode/utf8"
 
 	"rare/pkg/expressions"
 )
@@ -69,18 +70,27 @@ type c09Node struct {
 	kids        []*c09Node
 }
 
-func c09WsWord(s string) string { // " \t" -> "st", "" -> "-"
+// white-space words of the tree tokens: one letter per rune, a…y = index into c09SpaceRunes ("" -> "-")
+func c09WsWord(s string) string {
 	if s == "" {
 		return "-"
 	}
-	return strings.NewReplacer(" ", "s", "\t", "t").Replace(s)
+	var sb strings.Builder
+	for _, c := range s {
+		sb.WriteByte(byte('a' + c09WsIndex(c)))
+	}
+	return sb.String()
 }
 
 func c09UnWs(s string) string {
 	if s == "-" {
 		return ""
 	}
-	return strings.NewReplacer("s", " ", "t", "\t").Replace(s)
+	var sb strings.Builder
+	for _, c := range s {
+		sb.WriteRune(c09SpaceRunes[int(c-'a')%len(c09SpaceRunes)])
+	}
+	return sb.String()
 }
 
 func (t *c09Node) tokens(out *[]string) {
@@ -232,6 +242,39 @@ func c09Run(f []string) string {
 		}
 	case "tpl":
 		return c09Eval(f[1] == "1", string(UnHex(f[2])), f[3], f[4])
+	case "xtpl": // standard registry, raw template bytes
+		a, _ := exprRun([]string{"expr", f[1], f[2], f[3], f[4]})
+		if strings.HasPrefix(a, "panic") {
+			return "panic"
+		}
+		return a
+	case "runes":
+		return c09RunesAnswer(string(UnHex(f[1])))
+	case "seps": // which runes of a plane separate two arguments for the real splitter
+		plane, _ := strconv.Atoi(f[1])
+		var out []string
+		for c := plane * 0x10000; c < (plane+1)*0x10000; c++ {
+			if c >= 0xD800 && c <= 0xDFFF {
+				continue
+			}
+			args := expressions.VerifSplitTokenizedArguments("a" + string(rune(c)) + "b")
+			if len(args) == 2 && args[0] == "a" && args[1] == "b" {
+				out = append(out, strconv.Itoa(c))
+			}
+		}
+		if len(out) == 0 {
+			return "ok ."
+		}
+		return "ok " + strings.Join(out, ",")
+	case "enc":
+		var rs []rune
+		if f[1] != "." {
+			for _, p := range strings.Split(f[1], ",") {
+				n, _ := strconv.ParseInt(p, 10, 64)
+				rs = append(rs, rune(n))
+			}
+		}
+		return "ok " + HexS(string(rs))
 	case "lit":
 		text := string(UnHex(f[2]))
 		tpl := c09Escape(text)
@@ -294,10 +337,13 @@ func c09Ws(r *Rand, min int) string {
 	}
 	var sb strings.Builder
 	for i := 0; i < n; i++ {
-		if r.Chance(1, 3) {
-			sb.WriteByte('\t')
-		} else {
+		switch k := r.Intn(12); {
+		case k < 6:
 			sb.WriteByte(' ')
+		case k < 9:
+			sb.WriteByte('\t')
+		default: // any of the 25 White_Space runes
+			sb.WriteRune(Pick(r, c09SpaceRunes))
 		}
 	}
 	return sb.String()
@@ -385,6 +431,25 @@ func c09Tree(r *Rand, depth int) *c09Node {
 	return t
 }
 
+// a deep, narrow tree: one child per level recurses, the others are leaves
+func c09DeepTree(r *Rand, depth int) *c09Node {
+	if depth <= 0 {
+		return c09Tree(r, 0)
+	}
+	t := &c09Node{kind: 'C', text: Pick(r, c09ProbeNames), lead: c09Ws(r, 0), trail: c09Ws(r, 0)}
+	argc := 1 + r.Intn(3)
+	deep := r.Intn(argc)
+	for i := 0; i < argc; i++ {
+		t.seps = append(t.seps, c09Ws(r, 1))
+		if i == deep {
+			t.kids = append(t.kids, c09DeepTree(r, depth-1))
+		} else {
+			t.kids = append(t.kids, c09Tree(r, 0))
+		}
+	}
+	return t
+}
+
 func c09Ctx(r *Rand) (string, string) {
 	ne := r.Intn(7)
 	elems := make([]string, ne)
@@ -415,6 +480,9 @@ func c09Opt(r *Rand) string {
 
 func c09TreeCase(r *Rand) (string, string) {
 	t := c09Tree(r, 1+r.Intn(4))
+	if r.Chance(1, 8) {
+		t = c09DeepTree(r, 4+r.Intn(12))
+	}
 	if r.Chance(1, 12) { // top-level literal: anything goes
 		t = &c09Node{kind: 'L', text: c09LitText(r)}
 	}
@@ -520,37 +588,87 @@ const c09E = "6530;6531" // e0;e1
 const c09K = "61;4b41;31;4b31" // a=KA 1=K1
 
 func c09Gen(r *Rand, tier string) []string {
-	n := 700
+	n := 2600
+	exprBudget := 130 // `expr` cases are also replayed by C08/C10: keep their number as it was
 	if tier == "thorough" {
 		n = 30000
+		exprBudget = 5000
 	}
 	var out []string
+	tpl := func(o, t, el, ks string) { out = append(out, fmt.Sprintf("tpl %s %s %s %s", o, HexS(t), el, ks)) }
 	// documented examples and boundary inputs first
 	for _, t := range []string{"", "abc", `abc\`, `\`, `{`, `}`, `{}`, `{   }`, "{\t}", `{0}`, `{ 0 }`, `{a}`, `{a b}`, `{nofn b}`, `{{0}}`, `{{0} b}`,
 		`{a ""}`, `{a "" ""}`, `{a "b c" d}`, `{a {a "b c"} d}`, `{a "{0}"}`, `{a "\"" }`, `{a \" }`, `{a b\ c}`, `{a {0}{1}}`, `{a x{0}y}`,
 		`\{0\}`, `a\nb\tc\rd\\e\x`, `{a b} {`, `{a {`, `{a "}`, `{a "}"}`, `{a }}`, `{bad 1}`, `{nil 1}`, `{a {bad 1} {nil 2} {}}`, `{a {nofn 1}}`,
-		`{"a" b}`, `{"a"}`, `{""}`, `{"" a}`, `{+5}`, `{-0}`, `{007}`, `{9223372036854775808}`, `{a b}}`, `{a\ b}`, `{a\{b}`, "{a　b}", "{a​b}"} {
+		`{"a" b}`, `{"a"}`, `{""}`, `{"" a}`, `{+5}`, `{-0}`, `{007}`, `{9223372036854775808}`, `{a b}}`, `{a\ b}`, `{a\{b}`, "{a\u3000b}", "{a\u200bb}"} {
 		for _, o := range []string{"0", "1"} {
-			out = append(out, fmt.Sprintf("tpl %s %s %s %s", o, HexS(t), c09E, c09K))
+			tpl(o, t, c09E, c09K)
 		}
 	}
 	for _, t := range []string{"", "a", " a ", "a b", `a "b c" d`, `""`, `a "" b`, `"a"b`, `a"b"`, `{a b} c`, `x{a b}y z`, `"{" }`, `a\ b c`, `a\`, `} {`, `{"a b"} c`,
-		"a　b", "a\u0085b", "a​b", `{ " } " }`, `"a b`, `{a b`} {
+		"a\u3000b", "a\u0085b", "a\u200bb", `{ " } " }`, `"a b`, `{a b`} {
 		out = append(out, "split "+HexS(t))
+	}
+	// systematic families: escapes x backslash count x depth x position, adjacent quotes, empty and
+	// unterminated statements at every depth, deep nesting, every white-space kind and look-alike
+	for _, t := range c09Systematic(tier) {
+		if tier == "thorough" {
+			tpl("0", t, c09E, c09K)
+			tpl("1", t, c09E, c09K)
+		} else {
+			tpl(c09Opt(r), t, c09E, c09K)
+		}
+	}
+	for _, t := range c09SystematicSplit() {
+		out = append(out, "split "+HexS(t))
+	}
+	// which runes separate arguments: the whole of Unicode through the real splitter, plane by plane
+	for plane := 0; plane <= 16; plane++ {
+		out = append(out, fmt.Sprintf("seps %d", plane))
+	}
+	// UTF-8: Go's decoder against the model's, on boundary sequences and malformed streams; the same byte
+	// strings as templates, literal texts and splitter inputs
+	for _, s := range c09Utf8Samples(r, n/4) {
+		out = append(out, "runes "+HexS(s))
+		switch r.Intn(4) {
+		case 0:
+			tpl(c09Opt(r), s, c09E, c09K)
+		case 1:
+			tpl(c09Opt(r), "{a "+s+" x}", c09E, c09K)
+		case 2:
+			out = append(out, fmt.Sprintf("lit %s %s", c09Opt(r), HexS(s)))
+		default:
+			out = append(out, "split "+HexS("a "+s+" b"))
+		}
+	}
+	for i := 0; i < n/20+8; i++ { // string([]rune{…}) for arbitrary values
+		var ps []string
+		for k := r.Intn(6); k > 0; k-- {
+			v := Pick(r, []int{0, 0x7f, 0x80, 0x7ff, 0x800, 0xd7ff, 0xd800, 0xdbff, 0xdc00, 0xdfff, 0xe000, 0xfffd, 0xffff, 0x10000, 0x10ffff, 0x110000, 0x7fffffff})
+			if r.Bool() {
+				v = r.Intn(0x120000)
+			}
+			ps = append(ps, strconv.Itoa(v))
+		}
+		if len(ps) == 0 {
+			out = append(out, "enc .")
+		} else {
+			out = append(out, "enc "+strings.Join(ps, ","))
+		}
 	}
 	// escapes surviving to the argument level: an argument is a template of its own, so text meant literally
 	// inside an argument is escaped once per pass (outer scanner, argument splitter, argument compile)
-	for i := 0; i < n/4+8; i++ {
+	for i := 0; i < n/8+8; i++ {
 		var lit []byte
 		for k := r.Range(1, 5); k > 0; k-- {
 			lit = append(lit, Pick(r, []byte("a\\n t{}\"\n\t")))
 		}
 		nested := c09Pass1(c09Pass2(c09Escape(string(lit))))
 		el, ks := c09Ctx(r)
-		out = append(out, fmt.Sprintf("tpl %s %s %s %s", c09Opt(r), HexS("{a "+nested+" x}"), el, ks))
+		tpl(c09Opt(r), "{a "+nested+" x}", el, ks)
 		if r.Chance(1, 2) { // one level less / more than needed: still must agree with the model
-			out = append(out, fmt.Sprintf("tpl %s %s %s %s", c09Opt(r), HexS("{a "+c09Pass2(c09Escape(string(lit)))+"}"), el, ks))
-			out = append(out, fmt.Sprintf("tpl %s %s %s %s", c09Opt(r), HexS("{a {a "+c09Pass1(nested)+"}}"), el, ks))
+			tpl(c09Opt(r), "{a "+c09Pass2(c09Escape(string(lit)))+"}", el, ks)
+			tpl(c09Opt(r), "{a {a "+c09Pass1(nested)+"}}", el, ks)
 		}
 	}
 	for i := 0; i < n; i++ {
@@ -559,17 +677,28 @@ func c09Gen(r *Rand, tier string) []string {
 		el, ks := c09Ctx(r)
 		// the same print through the plain op, then a malformed mutation of it
 		if r.Chance(1, 4) {
-			out = append(out, fmt.Sprintf("tpl %s %s %s %s", c09Opt(r), HexS(printed), el, ks))
+			tpl(c09Opt(r), printed, el, ks)
 		}
 		m := c09Mutate(r, printed)
-		out = append(out, fmt.Sprintf("tpl %s %s %s %s", c09Opt(r), HexS(m), el, ks))
+		tpl(c09Opt(r), m, el, ks)
 		if r.Chance(1, 3) {
-			out = append(out, fmt.Sprintf("tpl %s %s %s %s", c09Opt(r), HexS(c09Corrupt(r, m)), el, ks))
+			tpl(c09Opt(r), c09Corrupt(r, m), el, ks)
 		}
 		// concatenations: text, statements, text
 		if r.Chance(1, 3) {
 			_, p2 := c09TreeCase(r)
-			out = append(out, fmt.Sprintf("tpl %s %s %s %s", c09Opt(r), HexS(c09Escape(c09LitText(r))+printed+c09Plain(r)+p2), el, ks))
+			tpl(c09Opt(r), c09Escape(c09LitText(r))+printed+c09Plain(r)+p2, el, ks)
+		}
+		// grammar-driven templates: escapes, quotes, adjacency, nesting, Unicode white space at every level;
+		// well formed, and with unterminated statements / quotes and stray specials
+		g := c09G{r: r}
+		tpl(c09Opt(r), g.template(r.Intn(4)), el, ks)
+		tpl(c09Opt(r), c09G{r: r, broken: true}.template(r.Intn(4)), el, ks)
+		if r.Chance(1, 6) {
+			tpl(c09Opt(r), g.template(4+r.Intn(5)), el, ks)
+		}
+		if r.Chance(1, 8) {
+			tpl(c09Opt(r), c09Corrupt(r, g.template(r.Intn(3))), el, ks)
 		}
 		// literal round trip: valid text, and invalid UTF-8
 		lt := c09LitText(r)
@@ -579,8 +708,8 @@ func c09Gen(r *Rand, tier string) []string {
 		}
 		// token soup
 		soup := string(c09SoupRunes(r))
-		out = append(out, fmt.Sprintf("tpl %s %s %s %s", c09Opt(r), HexS(soup), c09E, c09K))
-		// splitter: soup, printed argument lists, mutated, corrupted
+		tpl(c09Opt(r), soup, c09E, c09K)
+		// splitter: soup, printed argument lists, grammar argument lists, mutated, corrupted
 		out = append(out, "split "+HexS(string(c09SoupRunes(r))))
 		if len(printed) > 2 && printed[0] == '{' {
 			inner := printed[1 : len(printed)-1]
@@ -590,13 +719,27 @@ func c09Gen(r *Rand, tier string) []string {
 				out = append(out, "split "+HexS(c09Corrupt(r, inner)))
 			}
 		}
-		// standard registry through the shared op
+		{
+			st := c09G{r: r, broken: r.Chance(1, 4)}.stmt(r.Intn(3))
+			out = append(out, "split "+HexS(strings.TrimSuffix(strings.TrimPrefix(st, "{"), "}")))
+		}
+		// standard registry: through the shared op (valid UTF-8 only; replayed by C08/C10) and with raw bytes
 		if r.Chance(1, 6) {
 			t := Pick(r, c09StdSnippets)
 			if r.Bool() {
 				t = c09Mutate(r, t)
 			}
-			out = append(out, ExprCase(r.Bool(), t, []string{"e0", "", "e2"}, []string{"k", "v"}))
+			if exprBudget > 0 {
+				exprBudget--
+				out = append(out, ExprCase(r.Bool(), t, []string{"e0", "", "e2"}, []string{"k", "v"}))
+			}
+			if r.Bool() {
+				t = c09Corrupt(r, t)
+			}
+			if r.Bool() {
+				t = strings.ReplaceAll(t, " ", string(Pick(r, c09SpaceRunes)))
+			}
+			out = append(out, fmt.Sprintf("xtpl %s %s %s %s", c09Opt(r), HexS(t), "6530;-;6532", "6b;76"))
 		}
 	}
 	if tier == "thorough" {
@@ -617,6 +760,26 @@ func c09Gen(r *Rand, tier string) []string {
 			}
 		}
 		rec(nil)
+		// exhaustive UTF-8: every byte string of length <= 2, every string of length 3 / 4 over the boundary bytes
+		bnd := []byte{0x00, 0x41, 0x7f, 0x80, 0x8f, 0x90, 0x9f, 0xa0, 0xbf, 0xc0, 0xc1, 0xc2, 0xdf, 0xe0, 0xe1, 0xec, 0xed, 0xee, 0xef, 0xf0, 0xf1, 0xf3, 0xf4, 0xf5, 0xf7, 0xf8, 0xff}
+		for a := 0; a < 256; a++ {
+			out = append(out, "runes "+Hex([]byte{byte(a)}))
+			for b := 0; b < 256; b++ {
+				out = append(out, "runes "+Hex([]byte{byte(a), byte(b)}))
+			}
+		}
+		for _, a := range bnd {
+			for _, b := range bnd {
+				for _, c := range bnd {
+					out = append(out, "runes "+Hex([]byte{a, b, c}))
+					if a >= 0xe0 {
+						for _, d := range bnd {
+							out = append(out, "runes "+Hex([]byte{a, b, c, d}))
+						}
+					}
+				}
+			}
+		}
 	}
 	return out
 }
@@ -644,6 +807,31 @@ func c09Stats(cases []string) map[string]int {
 			if string([]rune(t)) != t {
 				st["tpl.invalidUtf8"]++
 			}
+			if d := c09MaxDepth(t); d >= 4 {
+				st["tpl.depth>=4"]++
+			}
+			if strings.Contains(t, `""`) {
+				st["tpl.adjacentQuotes"]++
+			}
+			for _, c := range t {
+				if c > 0x7f && unicode.IsSpace(c) {
+					st["tpl.unicodeSpace"]++
+					break
+				}
+			}
+		case "runes":
+			t := string(UnHex(f[1]))
+			if !utf8.ValidString(t) {
+				st["runes.invalidUtf8"]++
+			}
+		case "split":
+			t := string(UnHex(f[1]))
+			if !utf8.ValidString(t) {
+				st["split.invalidUtf8"]++
+			}
+			if strings.ContainsAny(t, "\\") {
+				st["split.hasBackslash"]++
+			}
 		case "lit":
 			t := string(UnHex(f[2]))
 			if string([]rune(t)) != t {
@@ -660,6 +848,24 @@ func c09Stats(cases []string) map[string]int {
 		}
 	}
 	return st
+}
+
+func c09MaxDepth(t string) int {
+	d, m := 0, 0
+	for _, c := range t {
+		switch c {
+		case '{':
+			d++
+			if d > m {
+				m = d
+			}
+		case '}':
+			if d > 0 {
+				d--
+			}
+		}
+	}
+	return m
 }
 
 func init() {
